@@ -586,12 +586,29 @@ func detMemo(f *ssa.Function) (bool, string) {
 	}
 	var memo ssa.Value
 	core.InstrsOf(f, func(in ssa.Instruction) {
-		if lk, ok := in.(*ssa.Lookup); ok && lk.CommaOk && lk.Index == ssa.Value(key) && lk.Block() == f.Blocks[0] {
-			memo = lk.X
+		if lk, ok := in.(*ssa.Lookup); ok && lk.CommaOk && lk.Index == ssa.Value(key) {
+			// consulted before any expansion: the lookup's block dominates every call made by f that can recurse
+			// (calls before it, such as a type test on the argument, do no expanding work)
+			before := true
+			core.InstrsOf(f, func(in2 ssa.Instruction) {
+				c := core.CallOf(in2)
+				if c == nil {
+					return
+				}
+				if _, isB := c.Value.(*ssa.Builtin); isB {
+					return
+				}
+				if !(lk.Block() == in2.Block() && core.Precedes(lk, in2)) && !(lk.Block() != in2.Block() && lk.Block().Dominates(in2.Block())) {
+					before = false
+				}
+			})
+			if before {
+				memo = lk.X
+			}
 		}
 	})
 	if memo == nil {
-		return false, "no memo lookup keyed by the argument at function entry"
+		return false, "no memo lookup keyed by the argument before the expanding calls"
 	}
 	stored := false
 	core.InstrsOf(f, func(in ssa.Instruction) {
